@@ -241,6 +241,92 @@ def enumerate_staged_rejoins() -> Iterator[Any]:
         yield ["seq", [a, ["fork", op, brs], E()]]
 
 
+def enumerate_staged_loop_rejoins() -> Iterator[Any]:
+    """the staged re-joins of `enumerate_staged_rejoins` with one branch a bare loop (`repeat{B}` or `repeat{B; B'}`,
+    no event before it: outside F's grammar) at each position: A; op{ op{ L | C }; X | D }; Y, A; op{ op{ B | C }; X | L }; Y,
+    A; op{ op{ B | L }; X | D | E }; Y …  The learner walks the branches that re-join early twice (`create_logic_merge`
+    drops their nodes and re-nests them), so a loop's node is created more than once."""
+    import itertools
+    for op, pos, extra, two in itertools.product(("XOR", "AND", "OR"), (0, 1, 2), (0, 1), (0, 1)):
+        ng = NameGen()
+
+        def E() -> Any:
+            return ["ev", ng.fresh()]
+        a = E()
+
+        def branch(i: int) -> Any:
+            if i == pos:
+                return ["seq", [["loop", ["seq", [E()] + ([E()] if two else [])]]]]
+            return ["seq", [E()]]
+        inner = ["seq", [["fork", op, [branch(0), branch(1)]], E()]]
+        brs = [inner, branch(2)] + ([["seq", [E()]]] if extra else [])
+        yield ["seq", [a, ["fork", op, brs], E()]]
+
+
+def rename_def(d: Any, f: Any) -> Any:
+    if d[0] == "ev":
+        return ["ev", f(d[1])]
+    if d[0] == "seq":
+        return ["seq", [rename_def(x, f) for x in d[1]]]
+    if d[0] == "fork":
+        return ["fork", d[1], [rename_def(x, f) for x in d[2]]]
+    if d[0] == "loop":
+        return ["loop", rename_def(d[1], f)]
+    return d
+
+
+def enumerate_loops_on_exits() -> Iterator[Any]:
+    """F-adjacent definitions (outside F's grammar: a break branch that holds a loop, two loops with no event between
+    them): a loop downstream of another loop's exit — A; repeat{B; XOR{X; repeat{Y[;W]}; [Z;] break | C}}; D and
+    A; repeat{B; XOR{[X;] break | C}}; repeat{E[;F]}; [D] — each under two namings (alphabetical along the definition,
+    and reversed) so that the enclosing / upstream loop's names sort before or after the downstream loop's.  Loop
+    extraction must collapse the downstream loop first whatever the names are."""
+    import itertools
+    for shape, two, opt, rev in itertools.product(("in_break", "after"), (0, 1), (0, 1), (0, 1)):
+        ng = NameGen()
+
+        def E() -> Any:
+            return ["ev", ng.fresh()]
+        a, b = E(), E()
+        if shape == "in_break":
+            x = E()
+            inner = ["loop", ["seq", [E()] + ([E()] if two else [])]]
+            brk = [x, inner] + ([E()] if opt else []) + [["brk"]]
+            d = ["seq", [a, ["loop", ["seq", [b, ["fork", "XOR", [["seq", brk], ["seq", [E()]]]]]]], E()]]
+        else:
+            brk = ([E()] if opt else []) + [["brk"]]
+            first = ["loop", ["seq", [b, ["fork", "XOR", [["seq", brk], ["seq", [E()]]]]]]]
+            second = ["loop", ["seq", [E()] + ([E()] if two else [])]]
+            d = ["seq", [a, first, second, E()]]
+        if rev:
+            names = def_names(d)
+            m = dict(zip(names, reversed(names)))
+            d = rename_def(d, lambda n: m[n])
+        yield d
+
+
+def enumerate_break_forks() -> Iterator[Any]:
+    """inside F: a loop whose body is B; XOR{ X; break | (X2; break)? | C… | D… | (E)? }; (F)? — one or two break
+    branches next to two or three branches that carry on (one or two events each), with or without an event after the
+    fork, alone or nested in an outer loop.  The walker must treat only a SINGLE surviving branch as closable at any
+    point (`lonely_merge`)."""
+    import itertools
+    for breaks, live, long_, after, nested in itertools.product((1, 2), (2, 3), (0, 1), (0, 1), (0, 1)):
+        ng = NameGen()
+
+        def E() -> Any:
+            return ["ev", ng.fresh()]
+        a, b = E(), E()
+        brs = [["seq", [E(), ["brk"]]] for _ in range(breaks)]
+        for i in range(live):
+            brs.append(["seq", [E()] + ([E()] if long_ and i == 0 else [])])
+        body = [b, ["fork", "XOR", brs]] + ([E()] if after else [])
+        loop = ["loop", ["seq", body]]
+        if nested:
+            loop = ["loop", ["seq", [E(), loop, E()]]]
+        yield ["seq", [a, loop, E()]]
+
+
 def enumerate_bare_breaks() -> Iterator[Any]:
     """F-adjacent definitions (outside F's grammar: a loop directly followed by a fork, a break branch without an
     event of its own): an outer loop whose body holds a nested loop and then a choice between leaving the outer loop
@@ -402,6 +488,18 @@ def loops_of(graph, path=""):
         if isinstance(n, LoopEvent): return "loop"
         return "dummy" if any(d in n.event_type for d in DUM) else "event"
     nodes = list(graph.nodes)
+    # distinct dummy nodes may carry one name (a body can hold two |||END||| nodes): number the repeats, the graph
+    # the Lean checkers see must have one vertex per node of the returned graph
+    _seen, _alias = {}, {}
+    for n in nodes:
+        if not isinstance(n, LoopEvent) and kind(n) == "dummy":
+            k = _seen.get(n.event_type, 0)
+            _seen[n.event_type] = k + 1
+            if k:
+                _alias[id(n)] = n.event_type + "#" + str(k + 1)
+    _nm0 = nm
+    def nm(n):
+        return _alias.get(id(n)) or _nm0(n)
     try:
         order = [nm(n) for n in nx.topological_sort(graph)]
     except Exception:
